@@ -600,3 +600,120 @@ func ruleH56(c *Ctx) {
 			return exprStr(r)
 		}()))
 }
+
+// ---------------------------------------------------------------- H2 / D6d
+
+// ruleH2: Histogram.Equals looks at every field of the histogram on both sides.
+func ruleH2(c *Ctx) {
+	R := c.R
+	p := c.P
+	R.Rule("H2", "Histogram.Equals compares every field of Histogram (geometry, totalCount and the counts) between the receiver and the argument", 1)
+	f := p.FuncNamed("dt/hdrhist.(*Histogram).Equals")
+	at := "hdrhist.(*Histogram).Equals/all-fields"
+	if f == nil {
+		R.Fail("H2", at, "-", "Equals not found")
+		return
+	}
+	info := f.Info()
+	recv := recvObject(f)
+	other := paramObj(f, 0)
+	seen := map[string]map[types.Object]bool{}
+	walkNoLit(f.Body, func(x ast.Node) bool {
+		se, ok := x.(*ast.SelectorExpr)
+		if !ok {
+			return true
+		}
+		if s := info.Selections[se]; s == nil || s.Kind() != types.FieldVal {
+			return true
+		}
+		if id, ok := ast.Unparen(se.X).(*ast.Ident); ok {
+			o := info.Uses[id]
+			if o == recv || o == other {
+				if seen[se.Sel.Name] == nil {
+					seen[se.Sel.Name] = map[types.Object]bool{}
+				}
+				seen[se.Sel.Name][o] = true
+			}
+		}
+		return true
+	})
+	var missing []string
+	if recv != nil {
+		if st, ok := namedOf(recv.Type()).Underlying().(*types.Struct); ok {
+			for i := 0; i < st.NumFields(); i++ {
+				fn := st.Field(i).Name()
+				if !(seen[fn][recv] && seen[fn][other]) {
+					missing = append(missing, fn)
+				}
+			}
+		}
+	}
+	R.Check(recv != nil && other != nil && len(missing) == 0, "H2", at, p.Position(f.Pos()), "every field is compared on both sides",
+		"Equals does not compare "+strings.Join(missing, ", ")+": two histograms that differ there (e.g. an Import/Merge that dropped counts) are reported equal")
+}
+
+// ruleD6d: Set.Equal compares the sizes before its one-directional membership walk.
+func ruleD6d(c *Ctx) {
+	R := c.R
+	p := c.P
+	R.Rule("D6d", "Set.Equal rejects sets of different size before it walks the receiver's members (the walk only checks receiver ⊆ other)", 1)
+	f := p.FuncNamed("dt.(*Set).Equal")
+	at := "dt.(*Set).Equal/size-first"
+	if f == nil {
+		R.Fail("D6d", at, "-", "Equal not found")
+		return
+	}
+	info := f.Info()
+	other := paramObj(f, 0)
+	fl := newFlow(f)
+	var guard ast.Node
+	walkNoLit(f.Body, func(x ast.Node) bool {
+		ifs, ok := x.(*ast.IfStmt)
+		if !ok || !containsReturn(ifs.Body) || guard != nil {
+			return true
+		}
+		// a != comparison one of whose sides is other.Len() / len(other.hash)
+		walkNoLit(ifs.Cond, func(y ast.Node) bool {
+			be, ok := y.(*ast.BinaryExpr)
+			if !ok || be.Op != token.NEQ {
+				return true
+			}
+			for _, side := range []ast.Expr{be.X, be.Y} {
+				if call, ok := ast.Unparen(side).(*ast.CallExpr); ok {
+					if callName(info, call) == "dt.(*Set).Len" {
+						if id, ok := ast.Unparen(recvExpr(call)).(*ast.Ident); ok && info.Uses[id] == other {
+							guard = ifs.Cond
+						}
+					}
+					if isBuiltinCall(info, call, "len") && usesObj(info, call, other) {
+						guard = ifs.Cond
+					}
+				}
+			}
+			return true
+		})
+		return true
+	})
+	okAll := guard != nil
+	if okAll {
+		walkNoLit(f.Body, func(x ast.Node) bool {
+			switch t := x.(type) {
+			case *ast.ForStmt:
+				// the statement itself is not a CFG node: use its condition / first body statement
+				var probe ast.Node = t.Cond
+				if probe == nil && len(t.Body.List) > 0 {
+					probe = t.Body.List[0]
+				}
+				if probe != nil && !fl.Dominates(guard, probe) {
+					okAll = false
+				}
+			case *ast.RangeStmt:
+				if !fl.Dominates(guard, t.X) {
+					okAll = false
+				}
+			}
+			return true
+		})
+	}
+	R.Check(okAll, "D6d", at, p.Position(f.Pos()), "size comparison dominates the membership walks", "Set.Equal walks the receiver's members without first rejecting a different size: a proper subset compares equal to its superset")
+}
